@@ -170,7 +170,14 @@ func c12RunRealUDP(run *vk.Run, cs c12RealUDPCase) {
 	switch c := c12CmpDgrams(got, expect); {
 	case c == "equal":
 		run.Count("datagrams_delivered_checked", int64(len(got)))
-		run.Count("bursts_over_32_delivered", int64(len(cs.Bursts)))
+		for _, b := range cs.Bursts {
+			switch {
+			case len(b) <= 32:
+				run.Count("bursts_17_to_32_delivered", 1)
+			default:
+				run.Count("bursts_over_32_delivered", 1)
+			}
+		}
 	default:
 		// same multiset => only the order differs on the real socket (counted, lenient)
 		key := func(x [][]byte) []string {
@@ -233,7 +240,7 @@ func TestVerifC12UDPRealSocket(t *testing.T) {
 	vk.Quiet()
 	run := vk.Start(t, "C12", "udp-real-socket")
 	defer run.Finish()
-	run.Rule("iocopy.UDP with a connected loopback *net.UDPConn (net.DialUDP, target-client shape, sendmmsg batch writer) and a receiver socket; scripted tunnel delivers 1-3 bursts of 33..200 position-coded datagrams of 1..256 B, each burst in one tunnel read; 1-5 datagrams sent back through the socket. distinct = (burst sizes, #back)")
+	run.Rule("iocopy.UDP with a connected loopback *net.UDPConn (net.DialUDP, target-client shape, sendmmsg batch writer) and a receiver socket; scripted tunnel delivers 1-3 bursts of 17..200 position-coded datagrams (classes 17..32, 33..36, 60..68, 33..200) of 1..256 B, each burst in one tunnel read; 1-5 datagrams sent back through the socket. distinct = (burst sizes, #back)")
 	before := vk.SnapshotGoroutines()
 	r := run.Rand("gen")
 	n := run.Pick(24, 240)
@@ -242,8 +249,13 @@ func TestVerifC12UDPRealSocket(t *testing.T) {
 		cs := c12RealUDPCase{Idx: i, Key: r.Uint64() >> 1}
 		for b := 1 + r.Intn(3); b > 0; b-- {
 			cnt := 33 + r.Intn(168)
-			if r.Intn(3) == 0 {
+			switch r.Intn(5) {
+			case 0:
 				cnt = 33 + r.Intn(4) // just over one sendmmsg batch
+			case 1, 2:
+				cnt = 17 + r.Intn(16) // inside one relay flush (<= 32), above half of it
+			case 3:
+				cnt = 60 + r.Intn(9) // around two flushes
 			}
 			var burst []int
 			for j := 0; j < cnt; j++ {
@@ -262,7 +274,8 @@ func TestVerifC12UDPRealSocket(t *testing.T) {
 	})
 	c12UDPLeak(run, before)
 	run.Floor("returned", int64(n*9/10))
-	run.Floor("bursts_over_32_delivered", int64(n*9/10))
+	run.Floor("bursts_over_32_delivered", int64(n/2))
+	run.Floor("bursts_17_to_32_delivered", int64(n/3))
 	run.Floor("datagrams_delivered_checked", int64(n*33))
 }
 
